@@ -627,6 +627,12 @@ func (kcp *KCP) Input(data []byte, pktType PacketType, ackNoDelay bool) int {
 			return -2
 		}
 
+		// a segment is stored in a pooled buffer of mtuLimit bytes: a longer one cannot be
+		// genuine (the sender's mss is capped the same way) and would overrun the buffer
+		if length > mtuLimit {
+			return -2
+		}
+
 		if cmd != IKCP_CMD_PUSH && cmd != IKCP_CMD_ACK &&
 			cmd != IKCP_CMD_WASK && cmd != IKCP_CMD_WINS {
 			return -3
